@@ -15,8 +15,8 @@ import (
 	"google.golang.org/protobuf/types/known/timestamppb"
 
 	"go.6river.tech/mmmbbb/actions"
-	"go.6river.tech/mmmbbb/ent"
 	"go.6river.tech/mmmbbb/grpc/pubsubpb"
+	"go.6river.tech/mmmbbb/logging"
 	"go.6river.tech/mmmbbb/services"
 
 	"verif/mc/filt"
@@ -128,6 +128,10 @@ func (r *Runner) rows() map[string]model.Row {
 	return out
 }
 
+func (r *Runner) streamer() *actions.MessageStreamer {
+	return &actions.MessageStreamer{Client: r.W.Client, Logger: logging.GetLogger("verif/streamer"), SubscriptionName: "verif"}
+}
+
 func parseIDs(ids []string) []uuid.UUID {
 	out := make([]uuid.UUID, len(ids))
 	for i, s := range ids {
@@ -193,26 +197,12 @@ func (r *Runner) Exec(c model.Call) model.Obs {
 	case "modack":
 		_, err = w.Sub.ModifyAckDeadline(ctx, &pubsubpb.ModifyAckDeadlineRequest{Subscription: model.SubPath(c.Op.Sub), AckIds: c.AckIDs, AckDeadlineSeconds: int32(c.Op.D / time.Second)})
 	case "nack":
-		// the streaming path: MessageStreamer.doAcksNacks runs ack+nack in one tx
-		ack := actions.NewAckDeliveries()
-		nack := actions.NewNackDeliveries(parseIDs(c.AckIDs)...)
-		err = w.Client.DoTx(ctx, nil, func(tx *ent.Tx) error {
-			if err := ack.Execute(ctx, tx); err != nil {
-				return err
-			}
-			return nack.Execute(ctx, tx)
-		})
+		// the streaming path: MessageStreamer.doAcksNacks (ack+nack in one request)
+		err = actions.VerifDoAcksNacks(ctx, r.streamer(), nil, parseIDs(c.AckIDs))
 	case "acknack":
-		// MessageStreamer.doAcksNacks: first half of AckIDs acked, second half nacked, one tx
+		// first half of AckIDs acked, second half nacked, in ONE stream request
 		h := len(c.AckIDs) / 2
-		ack := actions.NewAckDeliveries(parseIDs(c.AckIDs[:h])...)
-		nack := actions.NewNackDeliveries(parseIDs(c.AckIDs[h:])...)
-		err = w.Client.DoTx(ctx, nil, func(tx *ent.Tx) error {
-			if err := ack.Execute(ctx, tx); err != nil {
-				return err
-			}
-			return nack.Execute(ctx, tx)
-		})
+		err = actions.VerifDoAcksNacks(ctx, r.streamer(), parseIDs(c.AckIDs[:h]), parseIDs(c.AckIDs[h:]))
 	case "updateSub":
 		_, err = w.Sub.UpdateSubscription(ctx, &pubsubpb.UpdateSubscriptionRequest{
 			Subscription: &pubsubpb.Subscription{Name: model.SubPath(c.Op.Sub), Labels: map[string]string{"k": "v"}, Filter: "attributes:q", EnableMessageOrdering: true},
